@@ -21,7 +21,7 @@ RULE = ("generated expr = sum k_i * w_i with coefficients from {-1, integers, sy
 ASSUMPTIONS = ["vf/vecsem.py coordinate semantics", "3 random real assignments decide a rational identity"]
 N = {"quick": 480, "thorough": 19200}
 MIN_REACH = {"quick": {"rearranged": 1200, "refused_not_a_term": 80, "refused_non_vector": 30, "solution_substituted": 150,
-                       "unknown_in_several_terms": 60, "scalar_solved": 200, "radical": 40, "apply": 200},
+                       "unknown_in_several_terms": 60, "scalar_solved": 200, "radical": 40, "apply": 200, "refused_ill_formed": 1000},
              "thorough": {"rearranged": 40000, "scalar_solved": 8000}}
 SHARD_TIMEOUT = {"quick": 600, "thorough": 3000}
 
@@ -203,6 +203,8 @@ def vec_equation_case(r, rec):
                         pass
             if ok and len(rec.samples) < 3:
                 rec.sample(dict(case, result=str(res)[:200]))
+    if len(V) >= 3:
+        ill_formed_vector_expressions(rec, V, Sx)
     # non-vector expression -> TypeError
     rec.hit("refused_non_vector")
     for bad in (Sx[0] + 2, Sx[0] * Sx[1], sympy.Integer(3)):
@@ -213,6 +215,29 @@ def vec_equation_case(r, rec):
             pass
         except Exception as e:  # pylint: disable=broad-except
             rec.violation(f"non-vector-wrong-exception:{type(e).__name__}", f"solve_for_vector({bad}, v0) raised {type(e).__name__} instead of TypeError", {"expression": str(bad)})
+
+
+def ill_formed_vector_expressions(rec, V, Sx):
+    """expressions that contain vectors but are not vector expressions (a vector in a denominator, in whatever form; a
+    scalar added to a vector): a request to solve them for a vector is refused"""
+    import sympy
+    from symplyphysics.core.experimental.solvers import solve_for_vector
+    from symplyphysics.core.experimental.vectors import VectorNorm, VectorDot
+    x, y = Sx[0], Sx[1]
+    a, b, c, d = V[0], V[1], V[2 % len(V)], V[3 % len(V)]
+    bad = {"vector/vector": c + a / b, "vector/(scalar*vector)": c + a / (x * b), "vector/(-vector)": c + a / (-b), "vector/(vector+vector)": c + a / (b + d),
+           "vector/(2*vector)": c + a / (2 * b), "scalar/vector": c + x / b, "scalar/(scalar*vector)": c + y / (x * b), "vector+scalar": c + x,
+           "norm": VectorNorm(c), "vector+dot": c + VectorDot(a, b), "vector/(vector*scalar)**1": c + a * (x * b) ** -1}
+    for label, e in bad.items():
+        rec.hit("refused_ill_formed")
+        rec.case(("ill-formed", label))
+        try:
+            res = solve_for_vector(e, c)
+            rec.violation(f"non-vector-accepted:{label}", f"solve_for_vector({e}, {c}) returned {res} for an expression that is not a vector expression ({label})", {"expression": str(e), "kind": label})
+        except (TypeError, ValueError):
+            pass
+        except Exception as x_:  # pylint: disable=broad-except
+            rec.note(f"ill-formed {label}: refused by {type(x_).__name__}")
 
 
 def scalar_case(r, rec):
